@@ -73,5 +73,5 @@ for pat in ("PDp", "DdP", "PPP", "DpDp", "DpDd"):
     OBLIGATIONS.append(_mk(pat, 1, "both", 400))
 
 # N = 4 with the space split by the order of the hit starts (24 processes per pattern); types fixed to keep each part small
-for pat in ("PPPP", "PPDdP"):
+for pat in ("PPPP", "PPDdP", "PDdPP", "PPPDd"):
     OBLIGATIONS.append(_mk(pat, 3, "thorough", 1200, types=False, splits=order_splits(4)))
